@@ -463,7 +463,29 @@ type c13spec struct {
 
 func c13simple(r *rand.Rand, k *mon.Case, n int, light bool) *c13spec {
 	names := c13names(r, n, k)
-	encMode := r.IntN(6)
+	encMode := r.IntN(7)
+	var partialStd []int // codes of the standard encoding, in the order of the glyphs 1..len
+	if encMode == 6 {
+		// glyphs named after the standard encoding, of which only a prefix
+		// (possibly none) is encoded: a strict subset of the predefined
+		// Standard encoding must not be written as "predefined"
+		var codes []int
+		for code, sid := range cffmini.StandardEncodingSID {
+			if sid != 0 {
+				codes = append(codes, code)
+			}
+		}
+		r.Shuffle(len(codes), func(i, j int) { codes[i], codes[j] = codes[j], codes[i] })
+		if n >= 3 && n-1 <= len(codes) {
+			partialStd = codes[:n-1]
+			names = names[:1]
+			for _, code := range partialStd {
+				names = append(names, cffmini.StdStrings[cffmini.StandardEncodingSID[code]])
+			}
+		} else {
+			encMode = 3
+		}
+	}
 	if encMode == 2 {
 		// glyph names of the expert set, so that the predefined Expert encoding can apply
 		var sids []int
@@ -508,6 +530,15 @@ func c13simple(r *rand.Rand, k *mon.Case, n int, light bool) *c13spec {
 		}
 		f.Encoding = enc
 		desc += ",enc=expert-table"
+	case 6:
+		enc := make([]glyph.ID, 256)
+		m := r.IntN(len(partialStd)) // 0 .. n-2 encoded glyphs: always a strict subset
+		for i := 0; i < m; i++ {
+			enc[partialStd[i]] = glyph.ID(i + 1)
+		}
+		f.Encoding = enc
+		desc += fmt.Sprintf(",enc=partial-standard(%d of %d)", m, len(partialStd))
+		k.Class("gen:encoding-partial-standard")
 	default:
 		f.Encoding = c13encoding(r, n, k)
 		desc += ",enc=custom"
@@ -1262,7 +1293,7 @@ func runC13(c *mon.Ctx) {
 	}
 
 	req := []string{"charset-format:0", "charset-format:1", "charset-format:2", "encoding:predefined-standard", "encoding:predefined-expert",
-		"encoding:format-0", "encoding:format-1", "encoding:format-0+supplement", "encoding:format-1+supplement", "encoding:ranges=1", "encoding:ranges>=100",
+		"encoding:format-0", "encoding:format-1", "gen:encoding-partial-standard", "encoding:format-0+supplement", "encoding:format-1+supplement", "encoding:ranges=1", "encoding:ranges>=100",
 		"fdselect-format:0", "fdselect-format:3", "index-offsize:1", "index-offsize:2", "index-offsize:3",
 		"index-last-offset:255", "index-last-offset:256", "index-last-offset:257", "index-last-offset:65535", "index-last-offset:65536", "index-last-offset:65537",
 		"int-form:1-byte", "int-form:2-byte-positive", "int-form:2-byte-negative", "int-form:3-byte", "int-form:5-byte",
